@@ -436,6 +436,28 @@ impl Visitor<Diagnostic> for LibraryRenderer {
     }
 
     // 2.3.3.1
+    fn visit_struct_initial_value_assignment_kind(
+        &mut self,
+        node: &StructInitialValueAssignmentKind,
+    ) -> Result<Self::Value, Diagnostic> {
+        match node {
+            StructInitialValueAssignmentKind::Array(elements) => {
+                self.write_ws("[");
+                visit_comma_separated!(self, elements.iter(), ArrayInitialElementKind);
+                self.write_ws("]");
+                Ok(())
+            }
+            StructInitialValueAssignmentKind::Structure(elements) => {
+                self.write_ws("(");
+                visit_comma_separated!(self, elements.iter(), StructureElementInit);
+                self.write_ws(")");
+                Ok(())
+            }
+            _ => node.recurse_visit(self),
+        }
+    }
+
+    // 2.3.3.1
     fn visit_structure_element_init(
         &mut self,
         node: &StructureElementInit,
